@@ -131,6 +131,17 @@ def pieces : List Leaf → List Val → Option (List (Nat × Bytes))
 def image (ls : List Leaf) (vs : List Val) : Option Bytes :=
   (pieces ls vs).map fun ps => (List.range 64).map (imageByte ps)
 
+/-- confinement: a value outside its kind's domain (a MAC of 8 bytes, a PIN above 999999, an address that is not
+    IPv4) is no concern of the image rule - but whatever the encoder makes of it stays inside that field: when bytes
+    come back at all, every position outside the extents of the out-of-domain fields is what the image rule says
+    (the other fields' bytes at their offsets, the protocol id, zero elsewhere) -/
+def confined (ls : List Leaf) (vs : List Val) (out : Bytes) : Bool :=
+  let pairs := ls.zip vs
+  let good := pairs.filterMap fun (l, v) => leafWire l v
+  let wild := pairs.filterMap fun (l, v) => match leafWire l v with | some _ => none | none => extent l
+  out.length == 64 && (List.range 64).all fun i =>
+    wild.any (fun (o, w) => o ≤ i && i < o + w) || out.getD i 0 == imageByte good i
+
 /-! ### round trip (C05 / C18): what decoding the encoding of an in-domain value returns -/
 
 /-- The value that comes back. It is the value itself except for the observational equalities
